@@ -224,24 +224,21 @@ func TestVerif_C41_Auth(t *testing.T) {
 		return s
 	}
 
-	verifrt.ForEachCase(t, func(raw []byte) {
-		var line struct {
-			ID int             `json:"id"`
-			C  json.RawMessage `json:"c"`
-		}
-		verifrt.Decode(t, raw, &line)
-		var c struct {
-			Via    string `json:"via"`
-			Served string `json:"served"`
-			Ver    string `json:"ver"`
-			FP     struct {
-				Of   string `json:"of"`
-				Form string `json:"form"`
-			} `json:"fp"`
-		}
-		verifrt.Decode(t, line.C, &c)
+	type fpTok struct {
+		Of   string `json:"of"`
+		Form string `json:"form"`
+	}
+	type caseT struct {
+		Via    string  `json:"via"`
+		Served string  `json:"served"`
+		Ver    string  `json:"ver"`
+		FP     fpTok   `json:"fp"`    // single connection
+		Steps  []fpTok `json:"steps"` // or a sequence of connections to the same server in this process
+	}
+	// one decision of a manager configured with the fingerprint: it has to connect to the TLS server
+	connect := func(c *caseT, f fpTok) map[string]any {
 		srv := server(c.Served, c.Ver)
-		fp := pki.fingerprint(c.FP.Of, c.FP.Form)
+		fp := pki.fingerprint(f.Of, f.Form)
 		var m *Manager
 		switch c.Via {
 		case "authhttp":
@@ -262,7 +259,7 @@ func TestVerif_C41_Auth(t *testing.T) {
 			IP:          net.ParseIP("127.0.0.1"),
 		})
 		reached := served.Load() - before
-		rec := map[string]any{"id": line.ID, "c": line.C, "success": aerr == nil,
+		rec := map[string]any{"success": aerr == nil,
 			"eqfold": strings.EqualFold(fp, pki.hexOf(c.Served)), "fptext": fp, "reached": reached}
 		if (aerr == nil) != (reached == 1) {
 			t.Fatalf("vf41: manager answered %v but the server handled %d request(s)", aerr, reached)
@@ -277,6 +274,29 @@ func TestVerif_C41_Auth(t *testing.T) {
 			}
 			rec["err"] = msg
 		}
-		out.Emit(rec)
+		return rec
+	}
+
+	verifrt.ForEachCase(t, func(raw []byte) {
+		var line struct {
+			ID int             `json:"id"`
+			C  json.RawMessage `json:"c"`
+		}
+		verifrt.Decode(t, raw, &line)
+		var c caseT
+		verifrt.Decode(t, line.C, &c)
+		if c.Steps == nil {
+			rec := connect(&c, c.FP)
+			rec["id"], rec["c"] = line.ID, line.C
+			out.Emit(rec)
+			return
+		}
+		// the manager builds a new http client with MakeConfig(fingerprint) for every decision and reads
+		// the answer, so a later decision with another pin could resume the earlier TLS session
+		steps := []map[string]any{}
+		for _, f := range c.Steps {
+			steps = append(steps, connect(&c, f))
+		}
+		out.Emit(map[string]any{"id": line.ID, "c": line.C, "steps": steps})
 	})
 }
